@@ -377,7 +377,8 @@ func (r *RowCache) Update(uuid string, m model.Model, checkIndexes bool) (model.
 			}
 		}
 		for k, v := range removeIndexes[index] {
-			if indexSpec.isSchemaIndex() || substractUUIDSet(r.indexes[index][k], v).empty() {
+			// remove the index entry only if no other row took over the value
+			if substractUUIDSet(r.indexes[index][k], v).empty() {
 				delete(r.indexes[index], k)
 			}
 		}
